@@ -133,6 +133,9 @@ pub const CATALOGUE: &[Entry] = &[
     e("zero_denominator", "@zz9{«1/0»%g}", NONE, Err_, Parse, false),
     e("zero_denominator_mixed", "@zz9{«2 1/0»}", NONE, Err_, Parse, false),
     e("empty_value", "@zz9{«%g»}", NONE, Err_, Parse, false),
+    e("blank_value_after_lock", "@zz9{«= %g»}", NONE, Err_, Parse, false),
+    e("blank_value_after_lock_no_unit", "@zz9{«=  »}", NONE, Err_, Parse, false),
+    e("blank_timer_value_after_lock", "~{«= %min»}", NONE, Err_, Parse, false),
     e("integer_too_big", "@zz9{«99999999999»/2}", NONE, Err_, Parse, false),
     e("unit_on_cookware", "#zz9{1«%kg»}", NONE, Err_, Parse, false),
     e("unit_on_cookware_after_space", "#zz9{1« kg»}", E::ADVANCED_UNITS, Err_, Parse, false),
@@ -429,6 +432,32 @@ pub fn run(ctx: &mut Ctx) {
                 check_clean(ctx, &mut ps, &sp.text, E::COMPAT.bits(), "bundled", "core/compat");
                 let e = subsets[ctx.rng.below(subsets.len())].bits();
                 check_clean(ctx, &mut ps, &sp.text, e, "bundled", "core/random_subset");
+            }
+        }
+    }
+    // (a') prose that only looks like syntax: a stray marker followed by modifier characters, parentheses or operators
+    // and then nothing that can be a component. No ERROR may be reported (a warning about the stray marker is fine).
+    if ctx.shard == 0 {
+        for t in [
+            "Is it done@?? Keep stirring.\n", "Mail me@&(home) for details.\n", "x@&& y and a#++ b and c~-- d", "Serve @ room temperature.\n", "50% @+ 20# -?", "a @&(1) b", "a @&(~) b #&( c",
+            "@?", "#&", "@&(", "@+-?&@ x", "ok@&&\n\nnext @salt{1%g}", "= title @?? =\n\nstep", "> note@&& here\n\nstep @a{}",
+        ] {
+            for ext in [E::all().bits(), E::COMPONENT_MODIFIERS.bits(), E::empty().bits(), E::COMPAT.bits()] {
+                let case = Case::new("stray", t, ext, "bundled");
+                ctx.begin(&case);
+                let parser = ps.parser(ext, "bundled").clone();
+                match crate::core::guarded(|| parser.parse(t)) {
+                    Err(p) => ctx.violation(&case, "clean", "stray_marker|panic", format!("{} at {}", p.message, p.location)),
+                    Ok(r) => {
+                        if let Some((c, m)) = result_shape(&r) {
+                            ctx.violation(&case, "result_shape", c, m);
+                        } else if r.report().has_errors() {
+                            ctx.violation(&case, "clean", "stray_marker|error_on_plain_prose", format!("{:?}", r.report().errors().map(|e| e.message.to_string()).collect::<Vec<_>>()));
+                        } else {
+                            ctx.count("clean_ok:stray_markers_in_prose");
+                        }
+                    }
+                }
             }
         }
     }
